@@ -166,6 +166,7 @@ impl<const BITS: usize> Context<BITS> {
     /// Same as `finalize_reset` but also specify the key to reset with
     pub fn finalize_reset_with_key_at(&mut self, key: &[u8], out: &mut [u8]) {
         assert!(out.len() == ((BITS + 7) / 8));
+        assert!(key.len() <= Engine::MAX_KEYLEN);
         self.internal_final();
         out.copy_from_slice(&self.buf[0..out.len()]);
         self.reset_with_key(key);
@@ -297,6 +298,7 @@ impl ContextDyn {
     /// Same as `finalize_reset` but also specify the key to reset with
     pub fn finalize_reset_with_key_at(&mut self, key: &[u8], out: &mut [u8]) {
         assert!(out.len() == self.outlen);
+        assert!(key.len() <= Engine::MAX_KEYLEN);
         self.internal_final();
         out.copy_from_slice(&self.buf[0..out.len()]);
         self.reset_with_key(key);
